@@ -1031,7 +1031,9 @@ class Body:
             zero = [tb for av, tb in t["arms"] if int(av) == 0]
             if not zero:
                 continue
-            taken, skip = (t["otherwise"], zero[0]) if v != 0 else (zero[0], t["otherwise"])
+            if v == 0:
+                continue      # assertions compiled out (release-like config): the asserting path is not live, nothing to skip
+            taken, skip = t["otherwise"], zero[0]      # the asserting path / the path around it
             st = self.blocks[skip]["term"]
             if st.get("t") != "goto":
                 continue
